@@ -113,6 +113,10 @@ def apply_model(sym, n, f, vals, mut_idx, st):
     if p in ("std::convert::Into::into", "std::convert::From::from") and len(vals) == 1:
         return V(vals[0])
 
+    if p == "core::str::as_bytes" and len(vals) == 1 and vals[0][0] == "payload" and vals[0][2] == "Ok" and vals[0][1][0] == "call" \
+            and vals[0][1][1] in ("std::str::from_utf8", "core::str::from_utf8") and len(vals[0][1][2]) == 1:
+        return V(vals[0][1][2][0])      # the bytes of a successfully validated str are the validated bytes
+
     if p == "std::ops::Index::index" and len(vals) == 2 and (vals[1] == ("adt", "RangeFull", "RangeFull", ()) or (vals[1][0] == "zst" and "RangeFull" in str(vals[1]))):
         return V(vals[0])       # x[..] is x
 
